@@ -296,11 +296,16 @@ class DocutilsRenderer(RendererProtocol):
         :param temp_root_node: If set, allow sections to be created as children of this node
         :param heading_offset: offset heading levels by this amount
         """
+        n_duplicate_refs = len(self.md_env.get("duplicate_refs", []))
         tokens = (
             self.md.parseInline(text, self.md_env)
             if inline
             else self.md.parse(text + "\n", self.md_env)
         )
+        # duplicate reference definitions are reported when the render is finalised:
+        # make the lines of the ones found here relative to the full source
+        for dup_ref in self.md_env.get("duplicate_refs", [])[n_duplicate_refs:]:
+            dup_ref["map"] = [dup_ref["map"][0] + lineno, dup_ref["map"][1] + lineno]
 
         # remove front matter, if present, e.g. from included documents
         if tokens and tokens[0].type == "front_matter":
